@@ -482,6 +482,9 @@ type l1In struct {
 	RefStart uint64 `json:"ref_start"`
 	RefEnd   uint64 `json:"ref_end"`
 	Inner    bool   `json:"inner_interval"`
+	SegID    uint64 `json:"seg_id,omitempty"` // the integer in the URL ($Number$ or $Time$)
+	NowMS    int64  `json:"now_ms,omitempty"`
+	StartNr  int64  `json:"start_nr,omitempty"`
 }
 
 type tmpl struct {
@@ -649,6 +652,17 @@ func (r *run) fetchAudio(as *assetState, in l1In, nr int64) audioObs {
 		term := fmt.Sprintf("KSeg %s %d %s %s %s %s %s %s tab_%s canon_%s %d %s %d %s", r.fx, nr, u(in.RefStart), u(in.RefEnd), u(as.D), u(as.R), u(as.F), u(as.A),
 			as.d.Name, as.d.Name, cls, u(o.ps.Tfdt), o.ps.Seq, zl(can))
 		id := r.add(term, in, true)
+		if in.NowMS != 0 {
+			// the same request against the model of the whole handler path (reference lookup included)
+			mode := 0
+			if in.Mode == "time" {
+				mode = 1
+			}
+			rterm := fmt.Sprintf("KReq %s vrep_%s %d %d %s %s tab_%s canon_%s %d %s %d %d %s %d %s", r.fx, as.d.Name, as.D*1000/as.R, in.StartNr,
+				u(as.F), u(as.A), as.d.Name, as.d.Name, mode, u(in.SegID), in.NowMS, cls, u(o.ps.Tfdt), o.ps.Seq, zl(can))
+			r.add(rterm, in, true)
+			c.Count("l1:request-model:" + in.Mode)
+		}
 		// attach the case id to the failures just recorded
 		for i := len(c.Res.OracleFailures) - 1; i >= nFail0; i-- {
 			c.Res.OracleFailures[i].Case = id
@@ -679,7 +693,7 @@ func (r *run) numberRun(as *assetState, prefix string, n0 int64, L int) {
 	var prev *audioObs
 	for n := n0; n < n0+int64(L); n++ {
 		nr := n + t.startNr
-		in := l1In{Kind: "l1", Asset: as.d.Name, Mode: "number", N: nr}
+		in := l1In{Kind: "l1", Asset: as.d.Name, Mode: "number", N: nr, SegID: uint64(nr), NowMS: nowMS, StartNr: t.startNr}
 		in.VideoURL = fmt.Sprintf("/livesim2/%s%s/%s?nowMS=%d", prefix, as.d.URLPath, fillT(t.video, t.videoRep, uint64(nr)), nowMS)
 		in.AudioURL = fmt.Sprintf("/livesim2/%s%s/%s?nowMS=%d", prefix, as.d.URLPath, fillT(t.audio, t.audioRep, uint64(nr)), nowMS)
 		vresp := as.ls.GetRaw(in.VideoURL)
@@ -784,7 +798,8 @@ func (r *run) timelineRun(as *assetState, prefix string, nowMS int64, nFetch int
 		last := t.startNr + int64(len(v)) - 1
 		for k := len(v) - 1; k >= 0 && k >= len(v)-nFetch; k-- {
 			nr := last - int64(len(v)-1-k)
-			lin := l1In{Kind: "l1", Asset: as.d.Name, Mode: "timeline-number", N: nr, RefStart: v[k].T, RefEnd: v[k].T + v[k].D}
+			lin := l1In{Kind: "l1", Asset: as.d.Name, Mode: "timeline-number", N: nr, RefStart: v[k].T, RefEnd: v[k].T + v[k].D,
+				SegID: uint64(nr), NowMS: nowMS, StartNr: 0} // startNumber of the MPD is the first listed entry; the configured start number is 0
 			lin.AudioURL = fmt.Sprintf("/livesim2/%s%s/%s?nowMS=%d", prefix, as.d.URLPath, fillT(t.audio, t.audioRep, uint64(nr)), nowMS)
 			o := r.fetchAudio(as, lin, nr)
 			if o.status == 200 && (o.ps.Tfdt != a[k].T || o.ps.dur() != a[k].D) {
@@ -815,7 +830,8 @@ func (r *run) timelineRun(as *assetState, prefix string, nowMS int64, nFetch int
 				nr = int64(w)*int64(as.N) + int64(i)
 			}
 		}
-		lin := l1In{Kind: "l1", Asset: as.d.Name, Mode: "time", N: nr, RefStart: v[k].T, RefEnd: v[k].T + v[k].D}
+		lin := l1In{Kind: "l1", Asset: as.d.Name, Mode: "time", N: nr, RefStart: v[k].T, RefEnd: v[k].T + v[k].D,
+			SegID: a[k].T, NowMS: nowMS, StartNr: 0}
 		lin.AudioURL = fmt.Sprintf("/livesim2/%s%s/%s?nowMS=%d", prefix, as.d.URLPath, fillT(t.audio, t.audioRep, a[k].T), nowMS)
 		o := r.fetchAudio(as, lin, nr)
 		if o.status == 200 && (o.ps.Tfdt != a[k].T || o.ps.dur() != a[k].D) {
@@ -1501,6 +1517,11 @@ func runC03(c *lib.Ctx) error {
 	for _, as := range e.states {
 		fmt.Fprintf(&defs, "Definition tab_%s : list seg := %s.\n", as.d.Name, as.coqTab())
 		fmt.Fprintf(&defs, "Definition canon_%s : list Z := %s.\n", as.d.Name, zl(as.canon))
+		var vl []string
+		for i, vs := range as.video.Segs {
+			vl = append(vl, fmt.Sprintf("Timeline.Build_seg %d %d %d", vs.Start, vs.End, i+1))
+		}
+		fmt.Fprintf(&defs, "Definition vrep_%s : Timeline.rep := Timeline.Build_rep [%s] %d.\n", as.d.Name, strings.Join(vl, "; "), as.R)
 	}
 	var heavy, light []string
 	for _, cr := range r.cases {
@@ -1518,7 +1539,7 @@ func runC03(c *lib.Ctx) error {
 				end = len(terms)
 			}
 			c.WriteCases(fmt.Sprintf("cases_C03_%d.v", k),
-				lib.CasesFile("From Verif Require Import GoSem Audio CorrC03.", "c03case", defs.String(), terms[s*shard:end], "model_view"))
+				lib.CasesFile("From Verif Require Import GoSem Audio CorrC03.\nFrom Verif Require Timeline.", "c03case", defs.String(), terms[s*shard:end], "model_view"))
 			k++
 		}
 	}
